@@ -297,6 +297,80 @@ fn chunking(ctx: &mut Ctx) -> bool {
     true
 }
 
+/// messages, then a long marker-free region (longer than the reader's look-ahead), then messages: the first marker
+/// after the region at every offset around the end of the buffered data
+fn garbage_window_stream(g_len: usize, kind: usize) -> Vec<u8> {
+    let st = Framing::Storage;
+    let (bytes, _) = cat(&[
+        (Some(shape(&st, 31, 5, 0, 1, 0)), vec![]),
+        (Some(shape(&st, UEH, 2, 1, 2, 1)), vec![]),
+        (Some(shape(&st, 0, 3, 2, 3, 2)), garbage(g_len, kind)),
+        (Some(shape(&st, WTMS, 4, 0, 4, 3)), vec![]),
+        (Some(shape(&st, 31, 1, 1, 5, 4)), garbage(3, 1)),
+    ]);
+    bytes
+}
+fn run_garbage_window_case(ctx: &mut Ctx, g_len: usize, kind: usize, cap: usize, sched: &Sched) {
+    let cj = || json!({"family": "garbage_windows", "garbage_len": g_len, "garbage_kind": kind, "capacity": cap, "low_mark": LOW, "schedule": sched_json(sched)});
+    let data = Rc::new(garbage_window_stream(g_len, kind));
+    let reference = parse_all(&data[..], 0);
+    // (the 3 trailing bytes are shorter than any header: they may stay unprocessed)
+    if reference.0.len() != 5 || (reference.2 != g_len && reference.2 != g_len + 3) {
+        ctx.violation("count", "garbage_windows", &cj, format!("whole-slice parse: {} messages, {} bytes skipped; built 5 messages, {} bytes of garbage between them + 3 at the end", reference.0.len(), reference.2, g_len));
+    }
+    let r = catch(|| {
+        let src = Src::new(data.clone(), sched.clone());
+        let rd = LowMarkBufReader::new(src, cap, LOW);
+        parse_all(rd, 0)
+    });
+    match r {
+        Err(p) => ctx.violation("panic", &p.loc, &cj, p.msg),
+        Ok(got) => {
+            if got != reference {
+                ctx.violation("chunk_dependent", "garbage_windows", &cj, describe_diff(&reference, &got));
+            }
+            ctx.outcome(fnv_str(&format!("gw:{}:{}:{}", got.0.len(), got.1, got.2)));
+        }
+    }
+    ctx.landmark("garbage_window_case");
+    ctx.eval(true);
+    ctx.sample(cj);
+}
+fn garbage_windows(ctx: &mut Ctx) -> bool {
+    let thorough = ctx.tier == Tier::Thorough;
+    // offset of the garbage region = length of the three leading messages
+    let st = Framing::Storage;
+    let prefix = cat(&[(Some(shape(&st, 31, 5, 0, 1, 0)), vec![]), (Some(shape(&st, UEH, 2, 1, 2, 1)), vec![]), (Some(shape(&st, 0, 3, 2, 3, 2)), vec![])]).0.len();
+    // garbage lengths: around the look-ahead of the parser, and so that the next marker lies around the end of the
+    // first buffer-full of each small capacity
+    let w = if thorough { 24usize } else { 8 };
+    let mut glens: Vec<usize> = (LOW + 20 - w..=LOW + 20 + w).collect();
+    for cap in [LOW + 4096, LOW + 4097] {
+        glens.extend(cap - prefix - w..=cap - prefix + 4);
+    }
+    glens.sort();
+    glens.dedup();
+    let scheds = [Sched::Const(usize::MAX), Sched::Const(1), Sched::Const(4096), Sched::Const(65551), Sched::Cycle(vec![1, 0]), Sched::Cycle(vec![4096, 1, 0])];
+    ctx.begin_family("garbage_windows", &format!("3 messages + marker-free region of {} lengths ({}..{}) x 2 kinds + 2 messages x capacities x {} read schedules", glens.len(), glens[0], glens[glens.len() - 1], scheds.len()));
+    for g in &glens {
+        for kind in [1usize, 4] {
+            for cap in capacities() {
+                for s in &scheds {
+                    if ctx.mine() {
+                        run_garbage_window_case(ctx, *g, kind, cap, s);
+                    }
+                }
+            }
+        }
+        if ctx.out_of_time() {
+            ctx.end_family(false);
+            return false;
+        }
+    }
+    ctx.end_family(true);
+    true
+}
+
 // ------------------------------------------------------------------ part 2: the reader alone, BFS
 #[derive(Clone, Copy, Debug, PartialEq, Eq, Hash)]
 enum Op {
@@ -649,19 +723,22 @@ impl Prop for C04 {
         Meta {
             id: "C04",
             level: "model_checking",
-            rule: "(1) chunking: 11 byte streams (incl. serial framing with minimal 8..18 byte messages, maximum-size messages, embedded frame markers, 3 x capacity totals, serial framing, long garbage) x capacities {low+4096, low+4097, 512 KiB} (low = DLT_MIN_PARSER_LOOKAHEAD_SIZE, what the production call sites pass) x read-size schedules of a scripted source (constant k for 12-16 values incl. 1 and 65550..65556, every single deviation 'call #i returns 1 / half / asked-1 bytes' for i < 12, every pair of deviations, 3 cyclic patterns): DltMessageIterator over LowMarkBufReader must yield the same messages and counters as over the whole slice; every whole-message suffix parses to the tail. (2) reader alone: explicit-state BFS by re-execution over 19 operations (fill_buf, 4 consumes, 4 reads, 10 seeks with state-relative targets) from the initial state, per (capacity, low mark, data length, source schedule) configuration, states deduplicated on (pos, abs_pos, cap, empty_last_read, source call phase, model cursor, hash of the buffered bytes), plus an undeduplicated depth-4/5 tree. Oracle = byte vector + one cursor: bytes handed out / buffered equal the source's at the cursor, fill_buf returns >= min(low mark, remaining) and is empty only at the true end, seeks to targets inside the currently buffered range succeed, successful seeks re-deliver the source's bytes.".into(),
+            rule: "(1) chunking: 11 byte streams (incl. serial framing with minimal 8..18 byte messages, maximum-size messages, embedded frame markers, 3 x capacity totals, serial framing, long garbage) x capacities {low+4096, low+4097, 512 KiB} (low = DLT_MIN_PARSER_LOOKAHEAD_SIZE, what the production call sites pass) x read-size schedules of a scripted source (constant k for 12-16 values incl. 1 and 65550..65556, every single deviation 'call #i returns 1 / half / asked-1 bytes' for i < 12, every pair of deviations, 3 cyclic patterns): DltMessageIterator over LowMarkBufReader must yield the same messages and counters as over the whole slice; every whole-message suffix parses to the tail; family garbage_windows: 3 messages + a marker-free region (two kinds: 0xFF and repeated 'DLT') + 2 messages, the region's length swept around the parser's look-ahead and around the end of the first buffer-full of each small capacity (17+13+13 lengths, thorough 49+29+29) x the capacities x 6 read schedules (unlimited, 1 byte, 4096, 65551, two cyclic). (2) reader alone: explicit-state BFS by re-execution over 19 operations (fill_buf, 4 consumes, 4 reads, 10 seeks with state-relative targets) from the initial state, per (capacity, low mark, data length, source schedule) configuration, states deduplicated on (pos, abs_pos, cap, empty_last_read, source call phase, model cursor, hash of the buffered bytes), plus an undeduplicated depth-4/5 tree. Oracle = byte vector + one cursor: bytes handed out / buffered equal the source's at the cursor, fill_buf returns >= min(low mark, remaining) and is empty only at the true end, seeks to targets inside the currently buffered range succeed, successful seeks re-deliver the source's bytes.".into(),
             assumptions: vec!["fingerprint argument: the reader's control flow depends only on its numeric fields and the source state; buffered content is hashed in; the undeduplicated tree cross-checks small depths".into(),
                 "consume(n) is only called with n <= buffered bytes (BufRead contract)".into()],
             budget_s: (120, 1200),
             workers: 0,
-            required_landmarks: vec!["chunk_case", "suffix_case", "compaction(abs_pos>0)", "empty_last_read", "short_reads", "backward_seek_ok"],
+            required_landmarks: vec!["chunk_case", "garbage_window_case", "suffix_case", "compaction(abs_pos>0)", "empty_last_read", "short_reads", "backward_seek_ok"],
         }
     }
     fn run(&self, ctx: &mut Ctx) {
         if !reader_bfs(ctx) {
             return;
         }
-        chunking(ctx);
+        if !chunking(ctx) {
+            return;
+        }
+        garbage_windows(ctx);
     }
     fn replay(&self, case: &Value, ctx: &mut Ctx) {
         ctx.mine();
@@ -672,6 +749,10 @@ impl Prop for C04 {
                 let data = Rc::new(sd.bytes.clone());
                 let reference = parse_all(&data[..], 0);
                 run_chunk_case(ctx, sd, &data, &reference, case["capacity"].as_u64().unwrap() as usize, &sched_from_json(&case["schedule"]));
+            }
+            "garbage_windows" => {
+                let u = |k: &str| case[k].as_u64().unwrap() as usize;
+                run_garbage_window_case(ctx, u("garbage_len"), u("garbage_kind"), u("capacity"), &sched_from_json(&case["schedule"]));
             }
             "reader_bfs" => {
                 let ops: Vec<Op> = case["ops"].as_array().unwrap().iter().map(|o| *OPS.iter().find(|x| format!("{x:?}") == o.as_str().unwrap()).expect("op")).collect();
